@@ -45,6 +45,7 @@ Init0 ==
    attempts |-> <<>>, closeTimes |-> <<>>, openTimes |-> <<>>,
    blockedAt |-> <<>>, releasedAt |-> <<>>,
    tEnd |-> 0, tInit |-> 0, tCloseInv |-> -1,
+   unobservable |-> {},                                      \* client endpoints whose fake server refused / hung at some point
    bad |-> {}]
 
 Key(ev) == <<ev.ep, ev.inst>>
@@ -332,7 +333,8 @@ FinalReconnect(m, ev) ==
                  closes == {m.closeTimes[j].t : j \in {x \in 1..Len(m.closeTimes) : m.closeTimes[x].ep = ep /\ m.closeTimes[x].seq < A[i].seq}}
                  ref == prevFail \cup closes
              IN ref = {} \/ (LET r == Max(ref) IN 10 * (A[i].t - r) >= 9 * period - 50 /\ A[i].t - r <= period + 3000)
-      firstOk(ep) == Len(real(ep)) = 0 \/ real(ep)[1].t - m.tInit <= 1000
+      \* the harness only sees attempts its fake server accepts: not judged when the server refused or hung before
+      firstOk(ep) == Len(real(ep)) = 0 \/ ep \in m.unobservable \/ real(ep)[1].t - m.tInit <= 1000
       \* every failure (close event before Close, failed attempt) that Close leaves enough time is followed by a new attempt
       failures(ep) == {[t |-> m.closeTimes[j].t, seq |-> m.closeTimes[j].seq] :
                           j \in {x \in 1..Len(m.closeTimes) : m.closeTimes[x].ep = ep /\ ~m.closeTimes[x].closing}}
@@ -406,6 +408,8 @@ Step(m, ev) ==
     [] ev.e = "TWBlocked" -> OnTWBlocked(m, ev)
     [] ev.e = "TMode" -> OnTMode(m, ev)
     [] ev.e = "Attempt" -> OnAttempt(m, ev)
+    [] ev.e = "LMode" -> IF ev.mode \in {"refuse", "hang"} /\ Len(m.attempts) = 0
+                         THEN [m EXCEPT !.unobservable = @ \cup {ev.ep}] ELSE m
     [] ev.e = "Consumer" -> IF ev.run THEN m ELSE [m EXCEPT !.consumerStopped = TRUE]
     [] ev.e = "Quiesced" -> IF m.closing THEN m ELSE [m EXCEPT !.settled = m.ret]
     [] ev.e = "CloseInv" -> [m EXCEPT !.closing = TRUE, !.tCloseInv = ev.t]
